@@ -7,6 +7,7 @@ import (
 	"os"
 	"strings"
 
+	"github.com/formancehq/ledger/verifh/pimport"
 	"github.com/formancehq/ledger/verifh/sched"
 )
 
@@ -33,6 +34,29 @@ func ReplayConc(path string) int {
 	if err != nil {
 		fmt.Println("ENGINE-ERROR", err)
 		return 2
+	}
+	var rn struct {
+		Property string `json:"property"`
+		Replay   struct {
+			Kind string                 `json:"kind"`
+			Case pimport.RenumberedCase `json:"case"`
+			Logs int                    `json:"logs"`
+		} `json:"replay"`
+	}
+	if err := json.Unmarshal(b, &rn); err == nil && rn.Replay.Kind == "renumbered-import" {
+		verdict, err := pimport.ReplayRenumbered(rn.Property, rn.Replay.Case, rn.Replay.Logs)
+		if err != nil {
+			fmt.Println("ENGINE-ERROR", err)
+			return 2
+		}
+		if len(verdict) == 0 {
+			fmt.Println("replay: oracle silent")
+			return 0
+		}
+		for _, v := range verdict {
+			fmt.Printf("replay: %s: %s\n", v[0], v[1])
+		}
+		return 1
 	}
 	var f concReplayFile
 	if err := json.Unmarshal(b, &f); err == nil && f.Property == "C34" && f.Replay.Scenario == "" && f.Replay.Kind != "" {
